@@ -11,7 +11,7 @@ CLAIMS = {
     'C11': {
         'text': "PARTIAL, structural clauses only - completeness of the recursive, backtracking matcher over all "
                 "programs x derivable patterns is an inductive property of the search and is NOT decided. Decided, by "
-                "abstract execution, are six necessary conditions every derivation step relies on: (R1) any_node_match, "
+                "abstract execution, are eight necessary conditions every derivation step relies on: (R1) any_node_match, "
                 "run on a model student tree with a root-level matcher that accepts a chosen set of nodes, tries every "
                 "node as a root and returns exactly the matches that exist, wherever they are (all single nodes and "
                 "several pairs of an 11-node tree with statements inside statements and inside an except handler); (R2) "
@@ -24,7 +24,10 @@ CLAIMS = {
                 "unchanged when the candidate contradicts it, for the variable, function, class and expression tables, "
                 "and the next consistent candidate still merges; (R5) pattern and program text reach ast.parse with the "
                 "same syntax tree as given; (R6) shallow_symbol_handler never raises for placeholder-shaped names in "
-                "Name.id, Attribute.attr and arg.arg positions (a program mentioning obj.__dict__ matches itself).",
+                "Name.id, Attribute.attr and arg.arg positions (a program mentioning obj.__dict__ matches itself); (R7) "
+                "shallow_match_main yields the mapping for every pair of equal model nodes, incl. equal literals and "
+                "names that are different objects; (R8) the tree find_matches searches is the parse of the code asked "
+                "for, whatever was queried before (decision table of reparse_if_needed over call sequences).",
         'note': _NOTE + "Not decided: the induction over depth (that the per-level search composes), meta-field "
                         "matching along the recursion, dropped sibling statements across different bodies, consistent "
                         "_var_ renaming through every handler - i.e. completeness itself. The placeholder classes "
@@ -36,7 +39,7 @@ CLAIMS = {
     'C06': {
         'text': "PARTIAL, structural clauses only - observational equivalence of sandboxed and plain execution is NOT "
                 "decided (it quantifies over run-time values of every program; a differential harness is the right "
-                "tool and a different family). Decided are five necessary conditions whose truth is in the shape of "
+                "tool and a different family). Decided are nine necessary conditions whose truth is in the shape of "
                 "pedal's code, each by abstract execution: (R1) the text given to run() reaches compile() unmodified, in "
                 "'exec' mode under its own file name, without compiler flags and without inheriting a `from __future__` "
                 "feature of the sandbox module, and is executed in the sandbox's own namespace with __name__ == "
@@ -47,7 +50,12 @@ CLAIMS = {
                 "the same mutable object is passed again after it changed; (R3) the value handed back is the object "
                 "stored in the target; (R4) the line reported for an exception is the raising line of the innermost "
                 "traceback entry for tracebacks 1 to 1500 calls deep; (R5) the buffer standing in for sys.stdout is "
-                "built without initial text or newline translation.",
+                "built without initial text or newline translation; (R6) input() hands back the queued text itself "
+                "(blanks, tabs, case kept); (R7) an allowed import reaches the real __import__ exactly once with the "
+                "very name, globals, locals, fromlist and level given; (R8) ending an execution removes or rebinds none "
+                "of the names the program defined, also those named like overridden builtins; (R9) no function of "
+                "pedal.sandbox calls a function that changes interpreter-wide state student code observes (random.*, "
+                "recursion limit, cwd, locale, decimal context, gc, warnings filters, os.environ).",
         'note': _NOTE + "Not decided: everything else the statement says (printed text, globals, exception kind and "
                         "line, return values for arbitrary programs). The claim exists because the marshalling clause "
                         "has a finite, code-visible argument (and exposed a defect: call('f', float('inf'))).",
